@@ -79,7 +79,7 @@ func init() {
 	RegisterKind("emit-chan-unbound", "C08", "C02", "C07")
 	RegisterKind("emit-garbage", "C05", "C09")
 	// responses (C19)
-	RegisterKind("resp-uncorrelated", "C19", "C04")
+	RegisterKind("resp-uncorrelated", "C19", "C04", "C03")
 	RegisterKind("resp-duplicate", "C19")
 	RegisterKind("resp-wrongdst", "C19", "C04")
 	// snapshot cross-checks
